@@ -112,6 +112,13 @@ COLLECTORS = [
     ("((a)+(b))-(a)", ("a", "b")), ("(a)+(b)-(a)&(b)", ("a", "b")),
     ("(*)-(**)", ("*", "**")), ("([0])+([1])", ("[0]", "[1]")),
     ("(**)-(**)", ("**",)), ("(**)+(**)", ("**",)),
+    # slices reaching past either end as operands (in scope where the sliced
+    # Array holds scalars only)
+    ("([-9:2])", ("[-9:2]",)), ("([0:9])", ("[0:9]",)),
+    ("([-9:9])", ("[-9:9]",)), ("([-9:-7])", ("[-9:-7]",)),
+    ("([5:9])", ("[5:9]",)), ("([-9:9])[0]", ("[-9:9]",)),
+    ("([-9:1])+([2])", ("[-9:1]", "[2]")), ("([0])+([-9:2])", ("[0]", "[-9:2]")),
+    ("([-9:2])-([0])", ("[-9:2]", "[0]")), ("([1:9])&([-9:2])", ("[1:9]", "[-9:2]")),
 ]
 
 
@@ -380,6 +387,11 @@ def scalars_only(doc, nav, operands):
         if out.kind == "crash":
             return True         # the crash itself will be judged
         for nc in out.ncs:
+            if op.startswith("[") and ":" in op and not isinstance(nc, list) \
+                    and isinstance(nc.node, list) and all(
+                        corpus.is_scalar(getattr(e, "node", e))
+                        for e in nc.node):
+                continue        # a slice of an Array of scalars
             if isinstance(nc, list) or qrun.is_virtual(nc) \
                     or not corpus.is_scalar(nc.node):
                 return False
